@@ -505,10 +505,10 @@ def stage_loop(ctx: Ctx):
         locs = [len(lists[i]) - 1 for i in order if len(lists[i]) >= 2]
         l0 = 'None' if loop is False else f'(Some {0 if loop is True else loop})'
         cbs = '[' + '; '.join(cbool(k in skip_at) for k in range(1, (max(skip_at) if skip_at else 0) + 1)) + ']'
-        terms.append(f'res_eqb (subn_counts [{"; ".join(map(str, locs))}]%nat {l0} {max(count, 0)} {cbs}) ({n_unique}, {n_total}%nat)')     # a negative count is clamped to 0 on entry (the model starts behind the clamp)
+        terms.append(f'res_eqb (subn_entry [{"; ".join(map(str, locs))}]%nat {l0} ({count}) {cbs}) ({n_unique}, {n_total}%nat)')     # subn_entry: with the clamp of a negative count
         meta.append({**rec, 'locations': locs, 'real_counts': [n_unique, n_total]})
     failed = coq_eval_bools('C18_loop', LHDR, terms, shard=1000)
-    ctx.correspondence('models/SubLoop.v subn_counts == counts reported by FST.subn (count x loop x declining callbacks x back, list-merging family)', len(terms), [meta[k] for k in failed])
+    ctx.correspondence('models/SubLoop.v subn_entry (subn_counts behind the clamp of a negative count) == counts reported by FST.subn (count incl. negative x loop x declining callbacks x back, list-merging family)', len(terms), [meta[k] for k in failed])
 
 
 # ---- correspondence with models/Subst.v -----------------------------------------------------------------------------
